@@ -640,6 +640,9 @@ def main(ctx):
             ctx.violation('proof-broken', {'log': ctx.notes.get('cfg_build_log_tail', '')[-600:]},
                           'PropsCfg.v checks', 'does not check', 'PropsCfg.v', found_input=False,
                           signature={'kind': 'proof-broken', 'file': 'PropsCfg.v'})
+    if tier == 'thorough' and proof_ok and hasattr(ctx, 'coqchk'):
+        ctx.coqchk('C01/Props.v')
+    ctx.exhaustive = False
     return ctx.finish()
 
 
